@@ -124,7 +124,14 @@ def rule_m6(repo):
     return res
 
 
+def rule_m7(repo):
+    """The `auto` macro evaluates through logic.auto.norm / solve, whose process-wide memo tables are keyed by the
+    term alone: what is stored must have been obtained without side conditions (the rule of C10.V4)."""
+    from .c10 import rule_v4
+    return rule_v4(repo, 'C04.M7')
+
+
 def rules(repo):
     m1 = mr.hyps_rule(repo, 'C04.M1', mr.all_macros, floor=95)
     m2 = mr.zip_rule(repo, 'C04.M2', mr.macro_eval_functions(repo), floor=4)
-    return [m1, m2, rule_m3(repo), rule_m5(repo), rule_m6(repo)]
+    return [m1, m2, rule_m3(repo), rule_m5(repo), rule_m6(repo), rule_m7(repo)]
